@@ -244,6 +244,44 @@ def run(rep, tier, seed):
                                reps_ok=lambda c, got, F=F: flag_list_rep_ok(F, c, got, single, dup, comp, sc))
             check_provider("flag_by_member_names(camel)", flag_by_member_names(F, name_style=NameStyle.CAMEL), F, members, sc, mode,
                            reps_ok=lambda c, got: True)
+    # ---- one provider serving two classes: a map key given as a member of one class renames nothing in the other
+    import enum as _enum
+
+    class Color(_enum.Enum):
+        RED = "r"
+        GREEN = "g"
+
+    class Signal(_enum.Enum):
+        RED = 1
+        R = 2
+        GREEN = 3
+
+    class Access(_enum.Flag):
+        READ = 1
+        WRITE = 2
+
+    class Share(_enum.Flag):
+        READ = 1
+        R = 2
+        WRITE = 4
+    for sc, mode in cfgs:
+        shared = enum_by_name(Color, Signal, map={Color.RED: "R", "GREEN": "G"})
+        check_provider("enum_by_name(shared,map)", shared, Signal, list(Signal), sc, mode)
+        check_provider("enum_by_name(shared,map)", shared, Color, list(Color), sc, mode)
+        fshared = flag_by_member_names(Access, Share, map={Access.READ: "R"})
+        check_provider("flag_by_member_names(shared,map)", fshared, Share, [Share(v) for v in range(8)], sc, mode,
+                       reps_ok=lambda c, got: True)
+        check_provider("flag_by_member_names(shared,map)", fshared, Access, [Access(v) for v in range(4)], sc, mode,
+                       reps_ok=lambda c, got: True)
+        rt = Retort(strict_coercion=sc, debug_trail=getattr(DebugTrail, mode), recipe=[shared, fshared])
+        n += 4
+        for tp, member, want in ((Signal, Signal.RED, "RED"), (Signal, Signal.GREEN, "G"), (Color, Color.RED, "R"),
+                                 (Share, Share.READ, ["READ"]), (Access, Access.READ, ["R"])):
+            got = rt.dump(member, tp)
+            if got != want:
+                rep.violation(f"shared-provider-map:{tp.__name__}", "property-violated",
+                              {"what": f"one provider for two classes with map={{Color.RED: 'R', 'GREEN': 'G'}} / {{Access.READ: 'R'}}: "
+                                       f"dump({member!r}) = {got!r}, expected {want!r} (a member key renames that member only)"})
     nm = model_part(rep, tier)
     rep.cov.update({
         "evaluations": n + nm,
